@@ -44,7 +44,9 @@ CHECKS = {
 MOCK_NOTE = ("Trusted: Lean kernel, harness/mock_ops.c and the CGREEN_VERIF queue-dump hook, the generators in harness/mock_checks.py. Modelled, not verified: parameter "
              "constraints are integer eq/ne/lt/gt clauses on up to three parameters, return values are integers; side effects, content setters, "
              "capture and double clauses are covered by C12/C15/C16; removal of never_expect entries is modelled as a filter (equivalent under the invariant of at most one per function).")
-NOTES = {"C06": MOCK_NOTE, "C07": MOCK_NOTE, "C04": RUNNER_NOTE + " C04 additionally assumes that fork() gives the child a private copy of all memory (isolation of arbitrary user memory is the kernel's).", "C13": RUNNER_NOTE + " The test program's own globals are not the framework's to reset; the theorem excludes tests that read a global another test wrote.", "C17": RUNNER_NOTE, "C01": RUNNER_NOTE, "C02": RUNNER_NOTE, "C03": RUNNER_NOTE, "C08": RUNNER_NOTE, "C18": RUNNER_NOTE}
+NOTES = {"C05": "Trusted: Lean kernel, harness/cmp_probe.c, the Python oracles. Modelled, not verified: libc strcmp/strstr/strlen/memcmp as Lean definitions (C05_begins/C05_ends carry the explicit 2^32/2^31 length guards the C's unsigned/int intermediates impose); NULL string operands are covered by the model but not driven by the probe.",
+         "C15": "Trusted: Lean kernel and the Mathlib lemmas used (axioms propext, Classical.choice, Quot.sound), harness/cmp_probe.c, Python Fractions. Partial: the theorems are about exact arithmetic; IEEE-754 rounding of '-' and '+', and libm log10/pow/floor, separate the C from it by a band the check measures (known finding F27 for the exact-threshold reading).",
+         "C06": MOCK_NOTE, "C07": MOCK_NOTE, "C04": RUNNER_NOTE + " C04 additionally assumes that fork() gives the child a private copy of all memory (isolation of arbitrary user memory is the kernel's).", "C13": RUNNER_NOTE + " The test program's own globals are not the framework's to reset; the theorem excludes tests that read a global another test wrote.", "C17": RUNNER_NOTE, "C01": RUNNER_NOTE, "C02": RUNNER_NOTE, "C03": RUNNER_NOTE, "C08": RUNNER_NOTE, "C18": RUNNER_NOTE}
 
 hooks_commits = subprocess.run(["git", "-C", "/repo", "log", "--format=%h %s", "--grep=^verif hook"], capture_output=True, text=True).stdout.strip().split("\n")
 m = {"version": 1, "setup_cmd": "./setup.sh",
